@@ -10,6 +10,8 @@ LEAN_TARGETS = ['EosProofs.Props.C14']
 DRIVERS = ['drv_world']
 TRUSTED = F.WORLD_TRUSTED
 F.PARAM_SETS['switchy'] = dict(nsteps=45, nfits=2, nuni=3, disjoint=0.35, switch_weight=8)
+F.PARAM_SETS['switchy-proj'] = dict(nsteps=45, nfits=3, nuni=2, disjoint=0.2, switch_weight=7, proj_bias=True, prefill=True, neff=12)
+F.PARAM_SETS['switchy-fleet'] = dict(nsteps=40, nfits=2, nuni=2, fleet=True, switch_weight=5, disjoint=0.1)
 RULE = ('pairs/triples of generated sources with overlapping and source-specific type ids (20-35% of the types exist '
         'in one source only), histories with frequent source switches (incl. None) interleaved with all other ops; '
         'after every op cached entries, and at observation points all values/running sets, are compared with the Lean '
@@ -44,7 +46,7 @@ def correspondence(ctx):
         rep.dist['switches'] += _count_switches(h)
         if _count_switches(h) >= 2:
             rep.nontrivial.add(('switch2', pname, seed))
-    F.histories(ctx, rep, ['switchy', 'basic'], ctx.n(50, 1000), 'corr', on_history=on_history)
+    F.histories(ctx, rep, ['switchy', 'switchy-proj', 'switchy-fleet', 'basic'], ctx.n(40, 800), 'corr', on_history=on_history)
 
 
 def _switch_back(ctx, rep, n):
@@ -94,12 +96,12 @@ def _switch_back(ctx, rep, n):
                              oracle='switch-back'))
 
 
-def _move_fit(ctx, rep, n):
+def _move_fit(ctx, rep, n, pname='switchy'):
     """A fit moved to a solar system with another source behaves like a fit built there."""
     from eos import SolarSystem
     from harness import mem
-    p = F.PARAM_SETS['switchy']
-    base = ctx.sub_rnd('move').randrange(10 ** 9)
+    p = F.PARAM_SETS[pname]
+    base = ctx.sub_rnd('move', pname).randrange(10 ** 9)
     for k in range(n):
         seed = base + k
         rnd, w = WC.make_world(seed, dict(p, nfits=1))
@@ -116,7 +118,7 @@ def _move_fit(ctx, rep, n):
             if not fits:
                 continue
             f = fits[0]
-            other = 1 if w.src != 1 else 2
+            other = [i for i in range(len(w.unis)) if i != w.src][0]
             ss2 = SolarSystem(source=mem.source(w.unis[other].ch, 'u%d' % other))
             w.ss.fits.remove(f)
             ss2.fits.add(f)
@@ -130,18 +132,19 @@ def _move_fit(ctx, rep, n):
             continue
         except Exception as e:
             rep.violate('moving a fit between solar systems raised %s' % type(e).__name__,
-                        dict(F.case_of(seed, 'switchy', done), oracle='move-fit'))
+                        dict(F.case_of(seed, pname, done), oracle='move-fit'))
             continue
-        rep.case(sig=('move', seed), kind='move-fit')
+        rep.case(sig=('move', pname, seed), kind='move-fit-' + pname)
         d = F.equal_obs(got[0], want[0])
         if d or got[1] != want[1]:
             rep.violate('fit moved to a solar system with another source differs from a fit built there: %r' % (d[:2],),
-                        dict(F.case_of(seed, 'switchy', done), oracle='move-fit'))
+                        dict(F.case_of(seed, pname, done), oracle='move-fit'))
 
 
 def oracle(ctx):
     _switch_back(ctx, ctx.report, ctx.n(40, 800))
     _move_fit(ctx, ctx.report, ctx.n(20, 400))
+    _move_fit(ctx, ctx.report, ctx.n(40, 600), 'switchy-fleet')
 
 
 def search(ctx, broken):
